@@ -392,6 +392,11 @@ func (d *DNSFilter) Settings() (s *Settings) {
 
 // WriteDiskConfig - write configuration
 func (d *DNSFilter) WriteDiskConfig(c *Config) {
+	// The copy of the whole configuration below also reads the fields that
+	// are protected by filtersMu, so acquire it first.
+	d.conf.filtersMu.RLock()
+	defer d.conf.filtersMu.RUnlock()
+
 	func() {
 		d.confMu.Lock()
 		defer d.confMu.Unlock()
@@ -399,9 +404,6 @@ func (d *DNSFilter) WriteDiskConfig(c *Config) {
 		*c = *d.conf
 		c.Rewrites = cloneRewrites(c.Rewrites)
 	}()
-
-	d.conf.filtersMu.RLock()
-	defer d.conf.filtersMu.RUnlock()
 
 	c.Filters = slices.Clone(d.conf.Filters)
 	c.WhitelistFilters = slices.Clone(d.conf.WhitelistFilters)
